@@ -670,6 +670,89 @@ Proof.
   unfold obj_ok; cbn. repeat split; auto using u_ok_none; intros; discriminate.
 Qed.
 
+(* ---------- accessor copies ---------- *)
+Lemma private_copy_post s o : wf s -> post s (private_copy P G C s o).
+Proof.
+  intro Hw. unfold private_copy. apply post_with_obj; auto. intros ob Hg.
+  cbn [new_pd push_obj]. apply post_ret; [|cbn; lia].
+  apply wf_push.
+  - apply wf_new_pd; auto. intros r E. destruct Hw as [_ Hp]. unfold get_pd in E. eauto.
+  - apply ok_set_pdid. exact (wf_get _ _ _ Hw Hg).
+Qed.
+Lemma copy_all_post l : forall s, wf s -> post s (copy_all P G C s l).
+Proof.
+  induction l as [|o l IH]; intros s Hw; cbn; auto with wfdb.
+  apply post_bind; [apply copy_obj_post; auto|]. intros n s1 _ Hw1 _.
+  apply post_bind; [apply IH; auto|]. intros ns s2 _ Hw2 _. auto with wfdb.
+Qed.
+Lemma copy_with_transforms_post s o : wf s -> post s (copy_with_transforms P G C s o).
+Proof.
+  intro Hw. unfold copy_with_transforms. apply post_with_obj; auto. intros ob Hg.
+  pose proof (wf_get _ _ _ Hw Hg) as Hob.
+  destruct (copy_all_post (o_members P G C ob) s Hw) as [Hw1 Hl1].
+  destruct (copy_all P G C s (o_members P G C ob)) as [ns s1|e s1]; cbn in *; auto with wfdb.
+  apply post_ret; [|cbn; lia]. apply (wf_push s1 _ Hw1). apply ok_set_members. eapply obj_ok_mono; eauto.
+Qed.
+Lemma accessor_copy_post s o b : wf s -> post s (accessor_copy P G C s o b).
+Proof.
+  intro Hw. unfold accessor_copy. apply post_with_obj; auto. intros ob _.
+  destruct (o_kind P G C ob); try (destruct b; [apply private_copy_post | apply copy_obj_post]; auto).
+  apply copy_with_transforms_post; auto.
+Qed.
+Lemma post_rollback {A} s (m : res P G C A) :
+  wf s -> post s m -> post s (match m with Ok a s0 => Ok a s0 | Er e _ => Er e s end).
+Proof. intros Hw Hm. destruct m; auto with wfdb. Qed.
+
+Lemma data_new_post s o p ip : wf s -> post s (data_new P G C fits cf s o p ip).
+Proof.
+  intro Hw. unfold data_new. apply post_with_obj; auto. intros ob Hg.
+  assert (R : post s (match get_params s ob with
+      | None => Er AttrErr s
+      | Some pv =>
+        if negb (fits (o_kind P G C ob) p (o_grid P G C ob)) then Er ValueErr s else
+        match private_copy P G C s o with
+        | Er e _ => Er e s
+        | Ok n s1 =>
+          match (if is_callable pv
+                 then with_obj P G C s1 n (fun obn => match o_p P G C obn with
+                                               | Some _ => Ok tt (set_obj s1 n (set_p P G C obn None))
+                                               | None => Er AttrErr s1 end)
+                 else Ok tt s1) with
+          | Er e _ => Er e s
+          | Ok _ s2 =>
+            let (r, s3) := new_ten P G C s2 p in
+            let keep := match pv with VTen _ true => true | _ => false end in
+            match set_params P G C s3 n (SetTen r (keep || ip)) with
+            | Er e _ => Er e s
+            | Ok _ s4 => Ok n (clear_buffers s4 n)
+            end
+          end
+        end
+      end)).
+  { destruct (get_params s ob) as [pv|]; auto with wfdb.
+    destruct (negb _); auto with wfdb.
+    destruct (private_copy_post s o Hw) as [Hw1 Hl1].
+    destruct (private_copy P G C s o) as [n s1|e s1]; cbn in Hw1, Hl1; auto with wfdb.
+    set (m2 := if is_callable pv then _ else _).
+    assert (H2 : post s1 m2).
+    { subst m2. destruct (is_callable pv); auto with wfdb. apply post_with_obj; auto. intros obn Hgn.
+      destruct (o_p P G C obn); auto with wfdb. apply post_ret; [|cbn; lia].
+      apply wf_set_obj; auto. apply ok_set_p; [eapply wf_get; eauto | intros; discriminate]. }
+    destruct m2 as [[] s2|e s2]; auto with wfdb. destruct H2 as [Hw2 Hl2]. cbn in Hw2, Hl2.
+    destruct (new_ten P G C s2 p) as [r s3] eqn:En.
+    assert (Es : s3 = snd (new_ten P G C s2 p)) by (rewrite En; reflexivity).
+    assert (Er : r = tlen s2) by (unfold new_ten in En; injection En as <- _; reflexivity).
+    assert (Hw3 : wf s3) by (rewrite Es; apply wf_new_ten; auto).
+    assert (Hl3 : tlen s3 = S (tlen s2)) by (rewrite Es; apply tlen_new_ten).
+    cbn zeta.
+    assert (H4 : post s3 (set_params P G C s3 n (SetTen r (match pv with VTen _ true => true | _ => false end || ip)))).
+    { apply set_params_post; auto. intros r' ip' E. injection E as <- _. lia. }
+    destruct (set_params P G C s3 n _) as [[] s4|e s4]; auto with wfdb.
+    destruct H4 as [Hw4 Hl4]. cbn in Hw4, Hl4.
+    apply post_ret; [apply wf_clear_buffers; auto | rewrite tlen_clear_buffers; lia]. }
+  destruct (o_kind P G C ob); auto with wfdb.
+Qed.
+
 (* ---------- every operation, every history ---------- *)
 Notation step := (step P G C p0 emptyP zeroP fillP regrid callP fits geq same_dom spline_ok ffd_sub cf).
 Notation run := (run P G C p0 emptyP zeroP fillP regrid callP fits geq same_dom spline_ok ffd_sub cf).
@@ -686,7 +769,11 @@ Proof.
   - apply (fin_wf s). apply edit_post; auto.
   - apply (fin_wf s). apply grid_set_post; auto.
   - apply (fin_wf s). apply cond_set_post; auto.
-  - apply (fin_wf s). apply post_bind; [apply copy_obj_post; auto|]. intros n s1 _ Hw1 _. apply cond_set_post; auto.
+  - apply (fin_wf s). apply post_rollback; auto.
+    apply post_bind; [apply accessor_copy_post; auto|]. intros n s1 _ Hw1 _. apply cond_set_post; auto.
+  - apply (fin_wf s). apply post_rollback; auto.
+    apply post_bind; [apply accessor_copy_post; auto|]. intros n s1 _ Hw1 _. apply grid_set_post; auto.
+  - apply (fin_wf s). apply data_new_post; auto.
   - apply (fin_wf s). apply reset_post; auto.
   - apply (fin_wf s). apply update_post; auto.
   - apply (fin_wf s). apply call_post; auto.
